@@ -792,6 +792,10 @@ class CircuitTemplate(AbstractBaseTemplate):
         clear_ir_caches()
         clear_edge_caches()
 
+        # positions in the state vector that an earlier compilation of this template object recorded are not valid for
+        # the network that is built now (run() would otherwise index its per-variable results with them)
+        self._state_var_indices = {}
+
         # turn nodes from templates into IRs
         ####################################
 
